@@ -374,7 +374,7 @@ func exhaustiveC04(thorough bool, emit func(C04Case) bool) {
 		}
 	}
 	// very long fields / lines and many blocks
-	for _, n := range []int{4096, 9000, 70000} {
+	for _, n := range []int{4096, 9000, 70000, 1<<21 + 3} {
 		r := baseBedRec(12)
 		r.Name = gen.B(bytes.Repeat([]byte("n\" "), n/3))
 		r.Chrom = gen.B(bytes.Repeat([]byte("c"), n))
